@@ -24,13 +24,13 @@ TRACE_REGS = 3  # Trace_C13 / impl_c13 always carry 1 + 3 registry slots
 
 
 def _strip(e):
-    keep = ("op", "r", "r2", "new", "sym", "scale", "pfx", "str", "str2", "defs", "usys", "deep", "bypass", "fn", "warm", "how", "sys")
+    keep = ("op", "r", "r2", "new", "sym", "scale", "pfx", "str", "str2", "defs", "usys", "deep", "bypass", "fn", "warm", "how", "sys", "via", "obj")
     return {k: v for k, v in e.items() if k in keep}
 
 
 def _short(e):
     s = _strip(e)
-    txt = " ".join(f"{k}={s[k]}" for k in ("op", "fn", "how", "sys", "r", "r2", "new", "sym", "str", "str2", "scale", "pfx", "defs", "usys", "deep", "bypass", "warm") if k in s)
+    txt = " ".join(f"{k}={s[k]}" for k in ("op", "fn", "how", "sys", "r", "r2", "new", "sym", "str", "str2", "scale", "via", "obj", "pfx", "defs", "usys", "deep", "bypass", "warm") if k in s)
     return txt + " -> " + str(e.get("obs", {}).get("k", "")) + (":" + e["exc"] if e.get("exc") else "")
 
 
@@ -94,8 +94,8 @@ def _model_verdicts(ck, res, label):
         ck.note({"model_counterexample": r["tag"], "history": [_short(e) for e in r["h"]]})
 
 
-SLIM = dict(ConvHows='{"to"}', PickleH='{"registry"}', InBaseQ='{"km", "m"}', InBaseS='"slim"', HandleH='{"copyreg", "unitcopy"}', PickleP='{"m"}', DPfx="{TRUE}", DScales="{2}", AddScales="{2}", ModScales="{4}", ReadKeys='{"kfoo"}', ReadProbes='{"kfoo/km"}', BinP='{"foo", "m"}', BinF='{"mul", "add"}', CopyP='{"kfoo"}')
-FULL = dict(ConvHows='{"to", "in_units", "to_value", "convert_to_units"}', PickleH='{"registry", "unit"}', InBaseQ='{"km", "m", "foo"}', InBaseS='"full"', HandleH='{"copyreg", "unitcopy"}', PickleP='{"foo", "kfoo", "m", "km"}', DPfx="{FALSE, TRUE}", DScales="{2, 4}", AddScales="{2, 4}", ModScales="{2, 4}", ReadKeys='{"foo", "kfoo", "m", "km"}', ReadProbes='{"foo", "kfoo", "m", "km", "foo*m", "kfoo/km"}', BinP='{"foo", "kfoo", "m"}', BinF='{"mul", "div", "add"}', CopyP='{"foo", "kfoo", "m"}')
+SLIM = dict(ModVias='{"num"}', DefVias='{"num"}', ConvHows='{"to"}', PickleH='{"registry"}', InBaseQ='{"km", "m"}', InBaseS='"slim"', HandleH='{"copyreg", "unitcopy"}', PickleP='{"m"}', DPfx="{TRUE}", DScales="{2}", AddScales="{2}", ModScales="{4}", ReadKeys='{"kfoo"}', ReadProbes='{"kfoo/km"}', BinP='{"foo", "m"}', BinF='{"mul", "add"}', CopyP='{"kfoo"}')
+FULL = dict(ModVias='{"num"}', DefVias='{"num"}', ConvHows='{"to", "in_units", "to_value", "convert_to_units"}', PickleH='{"registry", "unit"}', InBaseQ='{"km", "m", "foo"}', InBaseS='"full"', HandleH='{"copyreg", "unitcopy"}', PickleP='{"foo", "kfoo", "m", "km"}', DPfx="{FALSE, TRUE}", DScales="{2, 4}", AddScales="{2, 4}", ModScales="{2, 4}", ReadKeys='{"foo", "kfoo", "m", "km"}', ReadProbes='{"foo", "kfoo", "m", "km", "foo*m", "kfoo/km"}', BinP='{"foo", "kfoo", "m"}', BinF='{"mul", "div", "add"}', CopyP='{"foo", "kfoo", "m"}')
 
 
 def _write_cfg(ck, name, MaxRegs=2, MaxLen=3, ExportLen=3, Mixed="TRUE", Namespaces="TRUE", Editing="TRUE", WarmSet="{FALSE}", export="state", alphabet=None):
@@ -117,7 +117,7 @@ def _write_cfg(ck, name, MaxRegs=2, MaxLen=3, ExportLen=3, Mixed="TRUE", Namespa
     ]
     if export != "hist":
         lines.append("VIEW View2" if export in ("mixed", "state2") else "VIEW View")
-    lines.append({"state": "INVARIANT ExportState", "state2": "INVARIANT ExportState", "mixed": "INVARIANT ExportMixedState", "trans": "ACTION_CONSTRAINT ExportTrans", "hist": "INVARIANT ExportHist"}[export])
+    lines.append({"state": "INVARIANT ExportState", "state2": "INVARIANT ExportState", "mixed": "INVARIANT ExportMixedState", "args": "INVARIANT ExportArgState", "trans": "ACTION_CONSTRAINT ExportTrans", "hist": "INVARIANT ExportHist"}[export])
     lines += ["INVARIANT ModelSharing", "ACTION_CONSTRAINT ModelFrame", "CHECK_DEADLOCK FALSE"]
     open(ck.spec + f"/{name}.cfg", "w").write("\n".join(lines) + "\n")
 
@@ -155,6 +155,8 @@ def run(ck):
         return n
 
     quick = ck.tier == "quick"
+    # every value class of object-valued arguments (see MultiReg!Vias)
+    ARGS = dict(ModVias='{"num", "qty", "ns"}', DefVias='{"num", "ns"}')
     LRU = dict(FULL, BinP='{"m"}', BinF='{"mul", "add"}', CopyP='{"m"}', PickleP='{"m"}')
     # (1) exhaustive bounded state spaces (history hidden by VIEW; kind of the last call and creation routes visible)
     covers = [
@@ -166,17 +168,24 @@ def run(ck):
         # mixed operations: creation route hidden, histories ending in a binary operation / re-binding / conversion
         covers.append(("mixed3-slim", dict(MaxRegs=2, MaxLen=3, ExportLen=3, Namespaces="FALSE", alphabet=dict(SLIM, BinF='{"mul", "div", "add"}', PickleP='{"kfoo"}', PickleH="{}", InBaseS='"none"'), export="mixed"),
                        "state space MaxRegs=2 MaxLen=3 with mixed operations, slim alphabet, cover of the states reached by a mixed operation"))
-        ck.cov["bound"] = [{"MaxRegs": 2, "MaxLen": 3, "alphabet": "slim, no namespaces", "mixed": False, "routes_visible": True}, {"MaxRegs": 2, "MaxLen": 3, "alphabet": "slim", "mixed": True, "routes_visible": False}]
+        ck.cov["bound"] = [{"MaxRegs": 2, "MaxLen": 3, "alphabet": "slim, no namespaces", "mixed": False, "routes_visible": True}, {"MaxRegs": 2, "MaxLen": 3, "alphabet": "slim", "mixed": True, "routes_visible": False}, {"MaxRegs": 1, "MaxLen": 2, "alphabet": "slim + namespace helpers + every value class of the modify / define_unit / UnitSystem argument", "mixed": False, "routes_visible": True}]
+        # arguments handed over as OBJECTS (caller's quantity / object exported by the namespace): one custom registry of every
+        # creation route, then every value class of modify / define_unit and the unit-object form of UnitSystem; depth 3 of
+        # these classes is in the thorough tier (instance args3) and, in both tiers, in the simulated histories
+        covers.append(("args2", dict(MaxRegs=1, MaxLen=2, ExportLen=2, Mixed="FALSE", Namespaces="TRUE", alphabet=dict(SLIM, InBaseS='"none"', **ARGS), export="args"),
+                       "state space MaxRegs=1 MaxLen=2, every value class of the argument of modify / define_unit / UnitSystem, creation routes visible, cover of the states whose witness history hands over an object"))
     else:
         covers.append(("cover3-full", dict(MaxRegs=2, MaxLen=3, ExportLen=3, alphabet=FULL, export="state2"),
                        "state space MaxRegs=2 MaxLen=3 full alphabet incl. mixed operations, state cover export"))
         covers.append(("cover4-warm", dict(MaxRegs=2, MaxLen=4, ExportLen=4, Namespaces="FALSE", Editing="FALSE", WarmSet="{FALSE, TRUE}", alphabet=dict(SLIM, BinP='{"m"}', CopyP='{"m"}', PickleP='{"m"}'), export="mixed"),
                        "state space MaxRegs=2 MaxLen=4, creations + mixed operations with warm/cold lru memos, cover of the states reached by a mixed operation"))
-        ck.cov["bound"] = [{"MaxRegs": 2, "MaxLen": 3, "alphabet": "slim", "mixed": False, "routes_visible": True}, {"MaxRegs": 2, "MaxLen": 3, "alphabet": "full", "mixed": True, "routes_visible": False}, {"MaxRegs": 2, "MaxLen": 4, "alphabet": "creations + mixed operations on m, warm/cold", "routes_visible": False}]
+        covers.append(("args3", dict(MaxRegs=1, MaxLen=3, ExportLen=3, Mixed="FALSE", Namespaces="TRUE", alphabet=dict(SLIM, InBaseS='"none"', **ARGS), export="args"),
+                       "state space MaxRegs=1 MaxLen=3, every value class of the argument of modify / define_unit / UnitSystem, creation routes visible, cover of the states whose witness history hands over an object"))
+        ck.cov["bound"] = [{"MaxRegs": 2, "MaxLen": 3, "alphabet": "slim", "mixed": False, "routes_visible": True}, {"MaxRegs": 2, "MaxLen": 3, "alphabet": "full", "mixed": True, "routes_visible": False}, {"MaxRegs": 2, "MaxLen": 4, "alphabet": "creations + mixed operations on m, warm/cold", "routes_visible": False}, {"MaxRegs": 1, "MaxLen": 3, "alphabet": "slim + namespace helpers + every value class of object-valued arguments", "routes_visible": True}]
     # (2) beyond the bound: TLC's simulator, 3 custom registries, lru memos warm or cold
     simspecs = [
-        ("hist", "FALSE", "TRUE", FULL, ck.q(20, 300), ck.q(6, 8)),
-        ("mixed", "TRUE", "TRUE", FULL, ck.q(20, 400), ck.q(5, 7)),
+        ("hist", "FALSE", "TRUE", dict(FULL, **ARGS), ck.q(20, 300), ck.q(6, 8)),
+        ("mixed", "TRUE", "TRUE", dict(FULL, **ARGS), ck.q(20, 400), ck.q(5, 7)),
         ("lru", "TRUE", "FALSE", LRU, ck.q(30, 200), ck.q(5, 6)),
     ]
 
